@@ -125,6 +125,11 @@ func checkList(c *runner.Ctx, list []single, how int) {
 		}
 	case 2: // several fields in one call
 		rm.Set("G,F,H", built...)
+	case 3: // the field already holds the first rule when a call naming several fields adds the others
+		rm.Set("F", built[0])
+		if len(built) > 1 {
+			rm.Set("F,G", built[1:]...)
+		}
 	}
 	text := rm.Get("F")
 	pieces := valid.ValidNamesSplit(text)
@@ -171,6 +176,12 @@ func checkList(c *runner.Ctx, list []single, how int) {
 	if how == 2 {
 		if rm.Get("G") != text || rm.Get("H") != text {
 			c.Violation("roundtrip/set-several-fields", det("fields G,F,H differ"))
+		}
+	}
+	if how == 3 && len(built) > 1 {
+		// G was named only in the second call: it holds exactly the rules of that call
+		if got, want := rm.Get("G"), strings.Join(built[1:], ","); got != want {
+			c.Violation("roundtrip/set-several-fields", det(fmt.Sprintf("field G holds %q, the second Set call gave it %q", got, want)))
 		}
 	}
 	c.Outcome("ok")
@@ -228,7 +239,7 @@ func run(c *runner.Ctx) {
 			if !c.Take() {
 				continue
 			}
-			for how := 0; how < 2; how++ {
+			for _, how := range []int{0, 1, 3} {
 				checkList(c, []single{a, b}, how)
 			}
 		}
@@ -251,11 +262,14 @@ func run(c *runner.Ctx) {
 					continue
 				}
 				checkList(c, []single{a, b, d}, 0)
+				checkList(c, []single{a, b, d}, 3)
 				c.Sample(func() interface{} { return []string{a.String(), b.String(), d.String()} })
 			}
 		}
 	}
 	// (2) no-loss law of the splitter
+	var prevPieces []string
+	var prevJoined, prevInput string
 	noLoss := func(name string, alpha []string, n int) {
 		for _, sep := range []byte{',', '/'} {
 			c.Space(fmt.Sprintf("noloss/%s/sep=%c", name, sep))
@@ -279,6 +293,12 @@ func run(c *runner.Ctx) {
 				}
 				pieces = append([]string(nil), pieces...)
 				joined := strings.Join(pieces, string(sep))
+				// what the previous call handed out is still what it was (pieces must not alias a buffer that a later
+				// call reuses)
+				if prevPieces != nil && strings.Join(prevPieces, "\x00") != prevJoined {
+					c.Violation("split-result-changed-by-a-later-call", map[string]interface{}{"earlier_input": prevInput, "earlier_pieces_then": prevJoined, "earlier_pieces_now": strings.Join(prevPieces, "\x00"), "later_input": s})
+				}
+				prevPieces, prevJoined, prevInput = pieces, strings.Clone(strings.Join(pieces, "\x00")), s
 				quoted := strings.Contains(s, "'")
 				calls := 1
 				ok := joined == s || joined+string(sep) == s
